@@ -265,6 +265,24 @@ namespace
                 violate("C10/heap-memory-lost", "after freeing every block the break is %td bytes above the heap start", __brkval - __malloc_heap_start);
             if (&__flp && __flp != nullptr) violate("C10/heap-memory-lost", "after freeing every block the free list is not empty");
             if (&__allocation_counter && __allocation_counter != 0) violate("C10/heap-allocation-counter", "allocation counter is %d after freeing every block", __allocation_counter);
+            if (p.ops.size() % 8 == 3)
+            {
+                // requests beyond 16 bits on the now empty heap: 70000 bytes, grown to 140000 in place, a small neighbour, all freed
+                char *big = (char *)lin_malloc(70000);
+                sh.check_new(big, 70000, HDR, "heap");
+                for (size_t i = 0; i < 70000; i++) big[i] = (char)pat(77, i);
+                char *small = (char *)lin_malloc(24);
+                sh.check_new(small, 24, HDR, "heap");
+                if (small < big + 70000) violate("C10/heap-overlap", "a 24-byte block at offset %td lies inside a live 70000-byte block at %td", small - sh.lo, big - sh.lo);
+                lin_free(small);
+                char *grown = (char *)lin_realloc(big, 140000);
+                if (!grown || grown < sh.lo || grown + 140000 > sh.hi) violate("C10/heap-outside-arena", "realloc(70000 -> 140000) returned a block outside the arena");
+                for (size_t i = 0; i < 70000; i++)
+                    if ((uint8_t)grown[i] != pat(77, i)) violate("C10/realloc-prefix", "realloc(70000 -> 140000) lost byte %zu of the prefix", i);
+                lin_free(grown);
+                if (__brkval != nullptr && __brkval != __malloc_heap_start) violate("C10/heap-memory-lost", "after freeing a 140000-byte block the break is %td bytes above the heap start", __brkval - __malloc_heap_start);
+                probe("request_over_65535_bytes");
+            }
             res.nontrivial = reused_gap;
             return res;
         }
@@ -349,6 +367,23 @@ namespace
                 if (ip.get() != nullptr || ip.avail() != 0 || ip.room() != 0) violate("C10/pool-before-init@igris::pool", "a default-constructed igris::pool hands out a block or reports free cells before init()");
                 ip.put(nullptr);
                 probe("pool_used_before_init");
+                if (p.ops.size() % 16 == 5)
+                {
+                    // more than 65535 cells
+                    const size_t cells = 70000;
+                    std::unique_ptr<char[]> bz(new char[cells * 8]);
+                    igris::pool bigp(bz.get(), cells * 8, 8);
+                    if (bigp.size() != cells || bigp.avail() != cells) violate("C10/pool-avail@igris::pool", "a pool of 70000 cells reports size %zu, %zu free", bigp.size(), bigp.avail());
+                    std::vector<char> seen(cells, 0);
+                    for (size_t q = 0; q < cells; q++)
+                    {
+                        char *c = (char *)bigp.get();
+                        if (!c || c < bz.get() || c >= bz.get() + cells * 8 || (c - bz.get()) % 8 || seen[(size_t)(c - bz.get()) / 8]++)
+                            violate("C10/pool-null-before-capacity@igris::pool", "a pool of 70000 cells handed out %p as cell number %zu", (void *)c, q + 1);
+                    }
+                    if (bigp.get() != nullptr || bigp.avail() != 0 || bigp.room() != 0) violate("C10/pool-over-capacity@igris::pool", "a pool of 70000 cells is not exhausted after 70000 cells were handed out");
+                    probe("pool_over_65535_cells");
+                }
                 ip.init(zone.get(), zsize, elsz);
                 sh.lo = zone.get();
             }
